@@ -185,6 +185,12 @@ def run(ctx):
                             ok = False
                             break
                         got_res = "Ok" if all("ok" in x for x in er) else "Err"
+                        unread = [x for x in rs[pos + ne:pos + ne + no] if "ok" not in x]
+                        if unread:
+                            ctx.violation("%s:%s:unreadable" % (mode, e["op"]), "%s, history %s: after %s the state could not be read: %s" % (fl, [(x["op"], x["h"], x["k"], x["v"]) for x in b[:n + 1]], e["op"], json.dumps(unread[0])[:200]),
+                                          {"flavour": fl, "kind": kind, "mode": mode, "events": b[:n + 1]})
+                            ok = False
+                            break
                         got = tr.read_obs(mode, alive, rs[pos + ne:pos + ne + no])
                         if got_res != e["res"] or not obs_equal(e["obs"], got, kind == "hist"):
                             key = "%s:%s" % (mode, e["op"])
